@@ -326,6 +326,18 @@ func (e *functionEntry) resolveArgs(arguments []interface{}) ([]interface{}, err
 	if len(e.arguments) == 0 {
 		return arguments, nil
 	}
+	for i, arg := range arguments {
+		// The handlers work on []interface{}; give them user-provided
+		// typed slices ([]string, []*T, ...) in that form.
+		if _, ok := arg.([]interface{}); !ok && isSliceType(arg) {
+			v := reflect.ValueOf(arg)
+			generic := make([]interface{}, v.Len())
+			for j := range generic {
+				generic[j] = interfaceOf(v.Index(j))
+			}
+			arguments[i] = generic
+		}
+	}
 	if !e.arguments[len(e.arguments)-1].variadic {
 		if len(e.arguments) != len(arguments) {
 			return nil, errors.New("incorrect number of args")
